@@ -64,6 +64,10 @@ func run(c *core.Ctx) {
 		fsChild(c)
 		return
 	}
+	if c.Replay != "" {
+		replayRecorded(c)
+		return
+	}
 	o := c.Out()
 	o.Level = "model_checking"
 	o.Rule = "behaviour = path through the TLC-exported vote graph of VoteSet (a tour covering every edge + seeded random walks) replayed on a real types.VoteSet for one concrete instantiation, or one edge of the commit lattice executed at the four commit-verification call sites; non-trivial = at least one vote was admitted or one commit accepted/rejected; distinct = distinct (instantiation, edge sequence)"
